@@ -141,6 +141,7 @@ func cmdVerify(args []string) {
 	dumpAll := fs.Bool("dumpall", false, "dump every query")
 	thorough := fs.Bool("thorough", false, "run all solvers to completion")
 	only := fs.String("only", "", "only obligations whose name contains this")
+	regexPkgs := fs.String("regex", "", "also check the regex clauses of these package names (comma separated)")
 	fs.Parse(args)
 	t0 := time.Now()
 	p, err := loadProgram(*repo, strings.Split(*pkgs, ","))
@@ -163,6 +164,18 @@ func cmdVerify(args []string) {
 	r, _ := newRunner(time.Duration(*timeout)*time.Second, *thorough)
 	defer r.close()
 	vcs, res := verifyFuncs(p, fns, r, true)
+	if *regexPkgs != "" {
+		rv := regexVCs(p, strings.Split(*regexPkgs, ","))
+		var jobs []*OblResult
+		for _, vc := range rv {
+			for _, o := range vc.Obls {
+				jobs = append(jobs, &OblResult{Obl: o, VC: vc})
+			}
+		}
+		solveAll(r, jobs)
+		vcs = append(vcs, rv...)
+		res = append(res, jobs...)
+	}
 	for _, vc := range vcs {
 		for _, e := range vc.Errors {
 			fmt.Printf("ERROR %s: %s\n", vc.Func, e)
